@@ -116,7 +116,7 @@ pub fn check(c: &Case, obs: &mut Obs) -> R {
     Ok(())
 }
 
-fn case_strategy() -> impl Strategy<Value = Case> {
+pub fn case_strategy() -> impl Strategy<Value = Case> {
     prop_oneof![
         stmt_gen::stmt_render(Dialect::Mysql).prop_map(|stmt| Case { dialect: Dialect::Mysql, stmt }),
         stmt_gen::stmt_render(Dialect::Postgres).prop_map(|stmt| Case { dialect: Dialect::Postgres, stmt }),
